@@ -245,6 +245,13 @@ def gen_layout(rng, w, short_prob=0.0, max_eps=4, extra=5, many=None, mode=None)
     elif mode == 'shuffleblocks':
         for l, n in zip(labels, lens):
             order += [l] * n
+    elif mode == 'chunks':
+        # every episode recorded in two sessions, the sessions of the episodes alternating (A1 B1 C1 A2 B2 C2); each
+        # chunk alone is at least w samples long
+        halves = [(l, max(w, (n + 1) // 2)) for l, n in zip(labels, lens)]
+        for _ in range(2):
+            for l, n in halves:
+                order += [l] * n
     else:
         rem = dict(zip(labels, lens))
         while any(v > 0 for v in rem.values()):
